@@ -79,6 +79,9 @@ type World struct {
 	IO    iface.IO
 	Order world.Ordering
 	Ctx   context.Context
+	// HadPartial is set once a replica restarted from a length-limited load: sets are then not causally
+	// closed and an exchange need not make all replicas equal.
+	HadPartial bool
 }
 
 // OpInfo describes what an executed operation did, for observers.
@@ -93,6 +96,7 @@ type OpInfo struct {
 	Sync     bool               // part of the final exchange
 	Returned iface.IPFSLog      // join result
 	Err      error
+	Partial  bool // the replica was replaced by a length-limited load (model adopted from the result)
 	Refused  bool // the operation is a merge that must be refused (Err != nil expected)
 	Skipped  bool // the operation had nothing to do in this state
 }
@@ -112,6 +116,7 @@ type GenConfig struct {
 	NoRebuild   bool
 	NoSetID     bool
 	NoBadJoin   bool // leave out "joinbad": a merge that must be refused (an unsigned candidate)
+	WithPartial bool // include "loadtail": the replica restarts from a length-limited load (its log is then not causally closed)
 	WithLoad    bool // include "load": the replica restarts from the store (manifest / JSON heads / head entries)
 	AppendBias  int  // extra weight for appends
 }
@@ -159,12 +164,15 @@ func Gen(t *rapid.T, cfg GenConfig) Prog {
 	if cfg.WithLoad {
 		kinds = append(kinds, "load")
 	}
+	if cfg.WithPartial {
+		kinds = append(kinds, "loadtail")
+	}
 	nops := rapid.IntRange(cfg.MinOps, cfg.MaxOps).Draw(t, "nops")
 	for i := 0; i < nops; i++ {
 		op := Op{Kind: rapid.SampledFrom(kinds).Draw(t, "kind"), A: rapid.IntRange(0, n-1).Draw(t, "a")}
 		switch op.Kind {
 		case "append", "appenddenied", "appendfail":
-			op.Payload = rapid.StringMatching(`[a-z]{1,3}`).Draw(t, "payload")
+			op.Payload = rapid.OneOf(rapid.StringMatching(`[a-z]{1,3}`), rapid.StringMatching(`[a-z]{1,3}`), rapid.SampledFrom([]string{"", "", "\x00", "\xff\xfe", "é", "a b"})).Draw(t, "payload")
 			op.PC = rapid.SampledFrom(PointerCounts).Draw(t, "pc")
 			op.Pin = rapid.IntRange(0, 3).Draw(t, "pin") == 0
 		case "join":
@@ -181,6 +189,9 @@ func Gen(t *rapid.T, cfg GenConfig) Prog {
 			op.Flag = rapid.IntRange(0, 1).Draw(t, "flag")
 		case "load":
 			op.Flag = rapid.IntRange(0, 2).Draw(t, "flag")
+		case "loadtail":
+			op.Flag = rapid.IntRange(0, 1).Draw(t, "flag")
+			op.PC = rapid.IntRange(1, 6).Draw(t, "length")
 		}
 		p.Ops = append(p.Ops, op)
 	}
@@ -269,7 +280,7 @@ func (w *World) Exec(tb ev.TB, idx int, op Op, sync bool) *OpInfo {
 		ret, err := r.Log.Join(other, -1)
 		info.Returned, info.Err = ret, err
 		if err == nil {
-			r.Model.Union(src.Model)
+			r.Model = w.JoinModel(r.Model, src.Model)
 			r.History = append(r.History, "j"+src.Model.Key())
 		}
 	case "appenddenied":
@@ -333,8 +344,9 @@ func (w *World) Exec(tb ev.TB, idx int, op Op, sync bool) *OpInfo {
 		_, jerr := r.Log.Join(bad, -1)
 		info.Err = jerr
 		if jerr == nil {
-			// not refused (that is C06's business): keep the model in step with what the log did
-			r.Model.Union(src.Model)
+			// not refused (that is C06's business, and legitimate when the stripped entry is not reachable
+			// after a length-limited load): keep the model in step with what the log did
+			r.Model = w.JoinModel(r.Model, src.Model)
 			r.History = append(r.History, "jb"+src.Model.Key())
 		}
 	case "selfjoin":
@@ -365,6 +377,38 @@ func (w *World) Exec(tb ev.TB, idx int, op Op, sync bool) *OpInfo {
 		info.Err = err
 		if err == nil {
 			r.Log = l
+		}
+	case "loadtail":
+		// restart from a length-limited load: the replica now holds only the newest entries (what exactly is
+		// C10's business: the model simply adopts what the load returned)
+		if len(r.Model) == 0 || world.Codec(w.Prog.Codec) == world.CodecPB {
+			info.Skipped = true
+			break
+		}
+		lo := &ipfslog.LogOptions{ID: LogID, SortFn: world.SortFn(w.Order), IO: w.IO, AccessController: r.AC}
+		n := op.PC
+		if n < 1 {
+			n = 1
+		}
+		var l *ipfslog.IPFSLog
+		var err error
+		if op.Flag%2 == 0 {
+			c, e := r.Log.ToMultihash(w.Ctx)
+			if e != nil {
+				info.Err = e
+				return info
+			}
+			l, err = ipfslog.NewFromMultihash(w.Ctx, w.Store.API(), world.Identity(r.Writer), c, lo, &ipfslog.FetchOptions{Length: &n})
+		} else {
+			l, err = ipfslog.NewFromEntryHash(w.Ctx, w.Store.API(), world.Identity(r.Writer), r.Log.Heads().Slice()[0].GetHash(), lo, &ipfslog.FetchOptions{Length: &n})
+		}
+		info.Err = err
+		if err == nil {
+			r.Log = l
+			r.Model = world.SetOf(world.Hashes(l.GetEntries()))
+			r.History = append(r.History, fmt.Sprintf("lt%d", n))
+			info.Partial = true
+			w.HadPartial = true
 		}
 	case "load":
 		if len(r.Model) == 0 || world.Codec(w.Prog.Codec) == world.CodecPB {
@@ -422,6 +466,30 @@ func Run(tb ev.TB, p *Prog, obs Observer) *World {
 	return w
 }
 
+// JoinModel is the reference result of an unbounded merge of src into dst: dst plus every entry of src
+// reachable from src's heads (the unreferenced members of src) along predecessor links through entries
+// that dst does not hold. For causally closed logs (everything built by appends and unbounded merges)
+// this is the plain union; the distinction only matters after a length-limited load.
+func (w *World) JoinModel(dst, src world.Set) world.Set {
+	out := dst.Clone()
+	stack := w.Reg.ModelHeads(src).Sorted()
+	seen := world.Set{}
+	for len(stack) > 0 {
+		h := stack[len(stack)-1]
+		stack = stack[:len(stack)-1]
+		if seen.Has(h) {
+			continue
+		}
+		seen.Add(h)
+		if !src.Has(h) || dst.Has(h) {
+			continue
+		}
+		out.Add(h)
+		stack = append(stack, w.Reg.Get(h).Next...)
+	}
+	return out
+}
+
 func (w *World) Union() world.Set {
 	u := world.Set{}
 	for _, r := range w.Reps {
@@ -476,7 +544,7 @@ func (w *World) SyncAll(tb ev.TB, choices []int, obs Observer) {
 			}
 		}
 	}
-	if !w.Converged() {
+	if !w.Converged() && !w.HadPartial {
 		tb.Fatalf("harness: exchange did not converge in the model")
 	}
 }
